@@ -932,6 +932,13 @@ impl<'tcx> rustc_hir::intravisit::Visitor<'tcx> for UnsafeVisitor<'tcx> {
                     .set("kind", J::s("block"))
                     .set("user", J::Bool(user))
                     .set("from_expansion", J::Bool(b.span.from_expansion()))
+                    .set(
+                        "macro_local",
+                        J::Bool(
+                            b.span.from_expansion()
+                                && b.span.ctxt().outer_expn_data().macro_def_id.map(|d| d.is_local()).unwrap_or(false),
+                        ),
+                    )
                     .set("file", J::s(l.file))
                     .set("line", J::UInt(l.line as u128))
                     .set("in_fn", J::s(self.cur.clone())),
@@ -1033,7 +1040,10 @@ fn collect<'tcx>(tcx: TyCtxt<'tcx>) -> J {
                         .fields
                         .iter()
                         .map(|f| {
-                            let ft = f.ty(tcx, ident_args);
+                            let ft0 = f.ty(tcx, ident_args);
+                            let ft = tcx
+                                .try_normalize_erasing_regions(env, ty::Unnormalized::new_wip(ft0))
+                                .unwrap_or(ft0);
                             J::obj()
                                 .set("name", J::s(f.name.to_string()))
                                 .set("ty", J::s(ft.to_string()))
